@@ -283,6 +283,8 @@ def run(ctx):
         c = e['from']['cfg']
         if not all(e['l']['hard'].values()):
             continue
+        if max(c['dia']) > 24:          # spheres that do not fit the grid are cost-level cases only: no liquid-state solution to converge to
+            continue
         tried += 1
         if check_solved(ctx, c, e['l'], 0.125, rng, fails):
             m += 1
@@ -290,6 +292,8 @@ def run(ctx):
             break
     ctx.traces += m
     ctx.stage('replay.solved', solved_and_judged=m, tried=tried)
+    if m < 3:       # vacuity guard: the solved-object clause must have been exercised
+        raise MachineryError('only %d of %d solves converged: the solved-object clause was not exercised' % (m, tried))
     # direction B: every evaluation of the cost function during the solves of the repository's tests and of the drivers
     os.environ['VERIF_TRACE_COST'] = '1'
     try:
